@@ -484,6 +484,7 @@ class TimeSensitiveDensityEstimator(BaseEstimator):
             )
             x = self.x
             nn_distances = compute_nn_distances_within_time_points(x, normalize=False)
+            nn_distances = validate_nn_distances(nn_distances)
         ls = compute_ls(nn_distances)
         ls *= self.ls_factor
         return ls
